@@ -21,7 +21,7 @@ Open Scope Z_scope.
    recognised, and the substitutions of different words of one text are applied by str.replace to
    the whole text, so they can interact. *)
 Theorem c20_word_sound_partial : forall ex resolve mapper,
-  (forall p, wf_path (resolve p)) ->
+  (forall p, wf_path p -> wf_path (resolve p)) ->
   forall w q rest,
     w <> [] -> forallb (fun c => negb (is_space c)) w = true ->
     p_parts (word_to_path w) = q ++ rest -> q <> [] ->
@@ -37,7 +37,7 @@ Print Assumptions c20_word_sound_partial.
 (* the replacement of any recognised word, inside any text: no leading '/', and no '/' at all
    outside the package *)
 Theorem c20_replacement_text : forall ex resolve mapper,
-  (forall p, wf_path (resolve p)) ->
+  (forall p, wf_path p -> wf_path (resolve p)) ->
   forall w t,
     safe_path ex resolve mapper w = Some (SOk t) ->
     hd_error t <> Some SLASH /\
@@ -122,3 +122,8 @@ Example c20_example_sinks :
     s_config sk = JDict [([113], JDict [([112], JList [JStr [120; 46; 104; 53]; JOther 1])])] /\
     s_log sk = [[114; 101; 97; 100; 32; 120; 46; 104; 53]].
 Proof. eexists. vm_compute. repeat split; reflexivity. Qed.
+
+(* the hypothesis asked of `resolve` in c20_word_sound_partial / c20_replacement_text is met by
+   the resolver used in every example above (and by any table of well-formed targets) *)
+Example c20_resolve_hypothesis_satisfiable : forall p, wf_path p -> wf_path (resolve_of [] p).
+Proof. exact resolve_of_nil_wf. Qed.
